@@ -28,7 +28,7 @@ func init() {
 			"Normal moves are never pawn moves (R01-kinds)",
 		},
 		NotDecided: []string{
-			"HasInsufficientMaterial's pop-count arithmetic over all material configurations",
+			"that PopCount itself counts bits (HasInsufficientMaterial's piece sets, case split, thresholds and colour mask are decided by R05-dead)",
 			"that repetition counts are right for every concrete history (decided: the walk's extent, the equality used, the classification)",
 		},
 	})
